@@ -127,6 +127,23 @@ Theorem C20_body_over_1023_never_delivered : forall t cmd body m,
   (1024 <= length body)%nat -> decode (snd (create_command t cmd body)) = Ok m -> m_body m <> body.
 Proof. exact body_over_1023_never_delivered. Qed.
 Print Assumptions C20_body_over_1023_never_delivered.
+(* (The statement above is only the decoder bound read for create_command: it uses nothing about
+   create_command, and its hypothesis `decode ... = Ok m` is in all likelihood never met - no instance is
+   known, every frame tried is rejected.  The direct statement follows.) *)
+
+(* REJECTION, directly: for every Terminal made by WithHeader (any version, any phone of the domain), after
+   any number of generated frames (any serial counter, any handler state), for every command and EVERY body
+   of 1024..2047 bytes, the frame CreateCommandData produces is rejected by the decoder with the
+   body-length error (the unmasked length sets bit 10 - the encryption flag - and announces len - 1024).
+   Beyond 2047 bytes the length spills into the fragment / version bits; there only the bound above and
+   the harness (bodies up to 4 023 bytes: all rejected) speak.  The witnesses below are instances
+   (length 1024). *)
+Theorem C20_body_1024_2047_rejected : forall ver phone ps hst cmd body,
+  digits phone -> (length phone <= maxlen ver)%nat -> (1024 <= length body < 2048)%nat ->
+  decode (snd (create_command {| t_hdr := sim_hdr ver phone; t_pv := ver; t_ps := ps; t_h := hst |} cmd body))
+  = Err E_BODY_LEN.
+Proof. exact body_1024_2047_rejected. Qed.
+Print Assumptions C20_body_1024_2047_rejected.
 
 (* two witnesses of what actually happens at 1024 bytes (2013 header / zero bytes, 2019 header / 0xff):
    the unmasked length sets the encryption bit and announces length 0, the decoder rejects the frame *)
